@@ -18,15 +18,28 @@ Theorem C15_spellings : forall m v, 1 <= m <= 12 -> spells m v ->
 Proof. exact spellings_resolve. Qed.
 Print Assumptions C15_spellings.
 
-(* applying any middleware after another equals applying the last one alone: all 9 ordered pairs, every value *)
-Theorem C15_compose : forall f g v v1, in_domain v -> resolve f v = MVal v1 -> resolve g v1 = resolve g v.
+(* applying any middleware after another equals applying the last one alone: all 9 ordered pairs, every value
+   except the bool True (C15_bool_true) *)
+Theorem C15_compose : forall f g v v1, in_domain v -> v <> VBool true -> resolve f v = MVal v1 -> resolve g v1 = resolve g v.
 Proof. exact compose. Qed.
 Print Assumptions C15_compose.
 
-(* any other value is returned unchanged, with its type *)
-Theorem C15_others : forall k v, ~ is_month_spelling v -> in_domain v -> resolve k v = MVal v.
+(* any other value except the bool True is returned unchanged, with its type *)
+Theorem C15_others : forall k v, ~ is_month_spelling v -> in_domain v -> v <> VBool true -> resolve k v = MVal v.
 Proof. exact others_unchanged. Qed.
 Print Assumptions C15_others.
+
+(* FINDING (True): `isinstance(True, int)` holds, so the abbreviation / long middlewares read the bool True as month 1
+   although it is no spelling (the int middleware, which looks at str only, returns it as it is); hence int-after-long
+   gives the int 1 where int alone gives True.  /repo: MonthAbbreviationMiddleware on month=True -> 'jan'.
+   (False is read as 0: out of range, unchanged by all three, covered by C15_others.) *)
+Theorem C15_bool_true :
+  resolve MInt (VBool true) = MVal (VBool true)
+  /\ resolve MAbbrev (VBool true) = MVal (VStr (abbrev_of 1))
+  /\ resolve MLong (VBool true) = MVal (VStr (full_of 1))
+  /\ ~ is_month_spelling (VBool true).
+Proof. exact resolve_bool_true. Qed.
+Print Assumptions C15_bool_true.
 
 (* no value whatsoever makes a middleware raise (KeyError / ValueError sites of the three functions are unreachable) *)
 Theorem C15_no_raise : forall k v, resolve k v <> MRaise.
@@ -58,3 +71,131 @@ Proof.
   - right; left. eexists. split; [reflexivity|]. split; vm_compute; reflexivity.
   - right; right; left. eexists. split; [reflexivity|]. vm_compute. reflexivity.
 Qed.
+
+(* ====================================================================================================
+   C15 over CPython's REAL str.lower / str.isdecimal / int.
+
+   The theorems above are statements about the ASCII instances `lower` / `py_int` (in_domain, MSkip).  Below,
+   Model/MonthGen.v transcribes the same three functions over ABSTRACT oracles
+       lowerU : str -> str            s.lower()
+       intU   : str -> option Z       _int_of_decimal_str(s) for an s with s.isdecimal(); None = int() refuses the
+                                      string even without its leading zeros (more than sys.get_int_max_str_digits()
+                                      digits, CPython >= 3.11); the value then stays a string
+   and the theorems hold for EVERY value (strings of any script included) under two explicit premises on lower()
+   (Spec/C15Gen.v, oracles_ok), each a fact of CPython; NOTHING is assumed of intU:
+       lower_rows_ok        on the 24 ASCII table rows lower() is the ASCII lower-casing
+       lower_keeps_decimal  s.isdecimal() -> s.lower().isdecimal()       (decimal digits are uncased)
+   Nothing else is assumed of lower(): in particular NOT that it preserves length (U+0130), NOT that only ASCII
+   letters lower to ASCII letters (KELVIN SIGN -> 'k'), NOT idempotence.  The uses of `v_lower[:3]` as a dict key
+   / list.index argument are safe because membership in an ASCII table pins v_lower down to that row
+   (MonthGenProofs: abbrev_member_prefix, full_member_prefix) - facts of the table, not of lower().
+
+   History: the first version of this generalisation (int() itself as the oracle, f"{int}" as a third one) showed
+   that a month value of more than 4300 digits ("0"*4300+"1") made all three middlewares raise ValueError and an
+   int >= 10^4300 made the long / abbreviation middlewares raise while formatting their message.  Both are repaired
+   in /repo ("fix: month middlewares do not raise on digit strings and ints beyond int()'s digit limit"); the model
+   below is the repaired code and C15_gen_no_raise is unconditional.  Still open: True (C15_gen_bool_true).
+   ==================================================================================================== *)
+From BP Require Import Model.MonthGen Spec.C15Gen Proofs.MonthGenProofs.
+
+(* every spelling of month m - the integer; a string CPython calls decimal which _int_of_decimal_str reads as m, in any
+   script, with any number of leading zeros; any string whose lower() is the abbreviation or the lower-cased full name -
+   is mapped to m / the abbreviation / the capitalised full name *)
+Theorem C15_gen_spellings : forall lowerU intU, oracles_ok lowerU ->
+  forall m v, 1 <= m <= 12 -> spells_g lowerU intU m v ->
+  resolve_g lowerU intU MInt v = GVal (VInt m)
+  /\ resolve_g lowerU intU MAbbrev v = GVal (VStr (abbrev_of m))
+  /\ resolve_g lowerU intU MLong v = GVal (VStr (full_of m)).
+Proof. exact gen_spellings. Qed.
+Print Assumptions C15_gen_spellings.
+
+(* all 9 ordered pairs, every value except True: the second middleware applied to the result of the first behaves
+   exactly as the second applied to the original value *)
+Theorem C15_gen_compose : forall lowerU intU, oracles_ok lowerU ->
+  forall f g v v1, v <> VBool true ->
+  resolve_g lowerU intU f v = GVal v1 -> resolve_g lowerU intU g v1 = resolve_g lowerU intU g v.
+Proof. exact gen_compose. Qed.
+Print Assumptions C15_gen_compose.
+
+(* any other value except True is returned unchanged, with its type *)
+Theorem C15_gen_others : forall lowerU intU, oracles_ok lowerU ->
+  forall k v, ~ is_month_spelling_g lowerU intU v -> v <> VBool true -> resolve_g lowerU intU k v = GVal v.
+Proof. exact gen_others. Qed.
+Print Assumptions C15_gen_others.
+
+(* in particular a decimal string that int() refuses even without leading zeros is no spelling and comes back as it is *)
+Theorem C15_gen_refused_decimal : forall lowerU intU, oracles_ok lowerU ->
+  forall k s, str_isdecimal s = true -> intU s = None ->
+  ~ is_month_spelling_g lowerU intU (VStr s) /\ resolve_g lowerU intU k (VStr s) = GVal (VStr s).
+Proof. exact gen_refused_decimal. Qed.
+Print Assumptions C15_gen_refused_decimal.
+
+(* no value whatsoever makes a middleware raise, whatever int() does: the KeyError and ValueError(list.index) sites,
+   the only ones left, are unreachable for every string ... *)
+Theorem C15_gen_no_raise : forall lowerU intU, oracles_ok lowerU ->
+  forall k v, resolve_g lowerU intU k v <> GRaise.
+Proof. exact gen_no_raise. Qed.
+Print Assumptions C15_gen_no_raise.
+(* ... and for this the only thing needed of lower() is that it is right on the 24 table rows *)
+Theorem C15_gen_no_raise_rows : forall lowerU intU, lower_rows_ok lowerU ->
+  forall k v, resolve_g lowerU intU k v <> GRaise.
+Proof. exact gen_no_raise_rows. Qed.
+Print Assumptions C15_gen_no_raise_rows.
+
+(* the ASCII model is the instance lower / int_of_decimal: the premises hold there, and the generalised functions
+   coincide with Model/Month.v wherever that model answers at all *)
+Theorem C15_gen_instance : forall k v,
+  oracles_ok lower
+  /\ (resolve k v <> MSkip -> to_mres (resolve_g lower int_of_decimal k v) = resolve k v).
+Proof. exact gen_instance_all. Qed.
+Print Assumptions C15_gen_instance.
+
+(* every spelling covered by C15_spellings is covered by C15_gen_spellings, for any lower() / _int_of_decimal_str that
+   agree with the ASCII instances on ASCII-only strings / ASCII digit strings *)
+Theorem C15_gen_covers_ascii : forall lowerU intU m v, lower_ascii_agree lowerU -> int_ascii_agree intU -> 1 <= m <= 12 ->
+  spells m v -> spells_g lowerU intU m v.
+Proof. exact spells_covered. Qed.
+Print Assumptions C15_gen_covers_ascii.
+Theorem C15_gen_ascii_rows : forall lowerU, lower_ascii_agree lowerU -> lower_rows_ok lowerU.
+Proof. exact ascii_agree_rows. Qed.
+Print Assumptions C15_gen_ascii_rows.
+
+(* FINDING (True), generalised model: not a spelling, yet changed by the abbreviation (and long) middleware; and
+   int-after-long gives the int 1 where the int middleware alone gives True back *)
+Theorem C15_gen_bool_true : forall lowerU intU, oracles_ok lowerU ->
+  ~ is_month_spelling_g lowerU intU (VBool true)
+  /\ resolve_g lowerU intU MAbbrev (VBool true) = GVal (VStr (abbrev_of 1))
+  /\ (exists v1, resolve_g lowerU intU MLong (VBool true) = GVal v1
+                 /\ resolve_g lowerU intU MInt v1 = GVal (VInt 1)
+                 /\ resolve_g lowerU intU MInt (VBool true) = GVal (VBool true)).
+Proof. exact gen_bool_refuted. Qed.
+Print Assumptions C15_gen_bool_true.
+
+(* non-vacuity: an executable instance with NON-ASCII oracle behaviour (KELVIN SIGN -> 'k', U+0130 -> two characters,
+   ARABIC-INDIC digits, leading zeros dropped, the 4300-digit limit) satisfies the premises ... *)
+Example C15_gen_example_oracles : oracles_ok lower_x.
+Proof. exact instance_x_ok. Qed.
+(* ... ARABIC-INDIC "12" (U+0661 U+0662) is month 12 for all three middlewares (/repo: 12, 'dec', 'December') *)
+Example C15_gen_example_arabic :
+  resolve_g lower_x int_x MInt (VStr arabic_12) = GVal (VInt 12)
+  /\ resolve_g lower_x int_x MAbbrev (VStr arabic_12) = GVal (VStr (abbrev_of 12))
+  /\ resolve_g lower_x int_x MLong (VStr arabic_12) = GVal (VStr (full_of 12)).
+Proof. exact example_x_arabic. Qed.
+(* ... 'o' KELVIN-SIGN 't' lowers to the ASCII word "okt": no row, unchanged (/repo: unchanged) *)
+Example C15_gen_example_kelvin : forall k,
+  lower_x oKt = (asc 111 :: asc 107 :: asc 116 :: nil) /\ resolve_g lower_x int_x k (VStr oKt) = GVal (VStr oKt).
+Proof. exact example_x_kelvin. Qed.
+(* ... 4300 zeros and a one is month 1 (/repo after the repair: 1, 'jan', 'January'; before: ValueError) *)
+Example C15_gen_example_long_digits :
+  resolve_g lower_x int_x MInt (VStr long_one) = GVal (VInt 1)
+  /\ resolve_g lower_x int_x MAbbrev (VStr long_one) = GVal (VStr (abbrev_of 1))
+  /\ resolve_g lower_x int_x MLong (VStr long_one) = GVal (VStr (full_of 1)).
+Proof. exact example_x_long_one. Qed.
+(* ... 4301 ones are still refused by int(): no spelling, unchanged (/repo after the repair: unchanged; before: ValueError) *)
+Example C15_gen_example_refused : forall k,
+  int_x long_ones = None /\ ~ is_month_spelling_g lower_x int_x (VStr long_ones)
+  /\ resolve_g lower_x int_x k (VStr long_ones) = GVal (VStr long_ones).
+Proof. exact example_x_long_ones. Qed.
+(* ... the int 10^4300 is unchanged by all three (/repo after the repair: unchanged; before: ValueError in two) *)
+Example C15_gen_example_big_int : forall k, resolve_g lower_x int_x k (VInt (10 ^ 4300)) = GVal (VInt (10 ^ 4300)).
+Proof. exact example_x_big_int. Qed.
